@@ -76,12 +76,15 @@ func runC37Config(keydir, policy string, mode, bits, sbits, token int, extra str
 		o.Ms = int(time.Since(t0) / time.Millisecond)
 	}()
 	var sid, cid *ident
-	if bits > 0 {
+	if sbits > 0 {
 		var err error
 		if sid, err = loadOrMakeIdent(keydir, "server", sbits); err != nil {
 			o.Err = "keygen: " + err.Error()
 			return
 		}
+	}
+	if bits > 0 {
+		var err error
 		if cid, err = loadOrMakeIdent(keydir, "client", bits); err != nil {
 			o.Err = "keygen: " + err.Error()
 			return
